@@ -273,6 +273,9 @@ def run(chk):
         how = rng.choice(["outer", "inner", None, "left", "right"])
         if it < 8 and nt >= 4:
             how = ("left", "right")[it % 2]        # many tables with a one-sided join: the grouping of the pairwise merges matters here
+        elif 8 <= it < 16:
+            # every run: a call with an explicit join kind is followed by a call WITHOUT one (the default is the outer join, whatever came before)
+            how = ("inner", None, "left", None, "right", None, "inner", None)[it - 8]
         mode = rng.choice(["column", "index", "suffix-column", "suffix-index"])
         kw = {} if how is None else {"how": how}
         if mode.startswith("suffix") and rng.random() < 0.35:
